@@ -7,7 +7,32 @@ import (
 	"fmt"
 	"os"
 	"sort"
+	"syscall"
 )
+
+// raiseFdLimit: an in-process tile38 server never closes its append-only file and its hook queue when it shuts down
+// (two descriptors per server lifetime - harmless for a real process, which exits); drivers that start tens of thousands
+// of servers in one process need a descriptor limit to match.
+func raiseFdLimit() {
+	var lim syscall.Rlimit
+	if syscall.Getrlimit(syscall.RLIMIT_NOFILE, &lim) != nil {
+		return
+	}
+	for _, want := range []uint64{1 << 20, 1 << 18, 1 << 16} {
+		if lim.Cur >= want {
+			return
+		}
+		n := syscall.Rlimit{Cur: want, Max: want}
+		if lim.Max > want {
+			n.Max = lim.Max
+		}
+		if syscall.Setrlimit(syscall.RLIMIT_NOFILE, &n) == nil {
+			return
+		}
+	}
+	lim.Cur = lim.Max
+	syscall.Setrlimit(syscall.RLIMIT_NOFILE, &lim)
+}
 
 type subcmd func(args []string) int
 
@@ -22,6 +47,7 @@ func emit(v interface{}) {
 }
 
 func main() {
+	raiseFdLimit()
 	if len(os.Args) < 2 || subcmds[os.Args[1]] == nil {
 		var names []string
 		for n := range subcmds {
